@@ -356,7 +356,7 @@ func TestC04Exhaustive(t *testing.T) {
 	st.Extra["exhaustive_part"] = map[string]interface{}{"rule_sets_x_orders": n, "max_rules": maxRules, "paths": paths, "hosts": hosts, "orders": orders, "exhaustive": firstFail == nil}
 	st.mu.Unlock()
 	if firstFail != nil {
-		path := saveReplay("C04", failCase, firstFail)
+		path := saveReplay("C04", "C04", failCase, firstFail)
 		line := fmt.Sprintf("VIOLATION property=C04 replay=%s", path)
 		fmt.Println(line)
 		st.mu.Lock()
